@@ -630,6 +630,61 @@ def top_stmts(h):
     return list(b.get("stmts", [])) + ([b["tail"]] if b.get("tail") is not None else [])
 
 
+def must_pass(body, pred):
+    """Every path through `body` (a block / if / match / expression, early exits aside) evaluates a node
+    satisfying `pred` — the syntactic must-pass-through: a statement of a block, both branches of an if,
+    every arm of a match, or the node itself (sub-expressions that are evaluated unconditionally count)."""
+    if not isinstance(body, dict):
+        return False
+    k = body.get("k")
+    if pred(body):
+        return True
+    if k == "block":
+        for st in list(body.get("stmts", [])) + ([body["tail"]] if body.get("tail") is not None else []):
+            if must_pass(st, pred):
+                return True
+        return False
+    if k == "if":
+        if must_pass(body["cond"], pred):
+            return True
+        return body.get("else") is not None and must_pass(body["then"], pred) and must_pass(body["else"], pred)
+    if k == "match":
+        if must_pass(body["scrut"], pred):
+            return True
+        if body.get("src") == "for":
+            return False
+        return bool(body["arms"]) and all(must_pass(a["body"], pred) or outcome(a["body"]) in ("ret-none", "ret-err", "ret", "panic") for a in body["arms"])
+    if k == "let":
+        return body.get("init") is not None and must_pass(body["init"], pred)
+    if k in ("closure", "loop"):
+        return False
+    # plain expressions: operands are evaluated unconditionally (short-circuit operators aside)
+    if k == "bin" and body.get("op") in ("And", "Or"):
+        return must_pass(body["l"], pred)
+    for v in body.values():
+        if isinstance(v, dict) and must_pass(v, pred):
+            return True
+        if isinstance(v, list):
+            for x in v:
+                if isinstance(x, dict) and x.get("k") and must_pass(x, pred):
+                    return True
+                if isinstance(x, list):
+                    for y in x:
+                        if isinstance(y, dict) and y.get("k") and must_pass(y, pred):
+                            return True
+    return False
+
+
+def arms_by_variant(m):
+    """{variant short name: [arms]} for a match, keeping *every* arm (guarded duplicates included)."""
+    out = {}
+    for a in m["arms"]:
+        vs = pat_top_variants(a["pat"]) or ["_"]
+        for v in vs:
+            out.setdefault(v.split("::")[-1], []).append(a)
+    return out
+
+
 # --------------------------------------------------------------------------- guard contexts
 def guards(anc, node):
     """Conditions under which `node` is evaluated, read off its ancestor chain:
